@@ -690,4 +690,14 @@ def _c09_relocation():
 
 
 CONTRACTS = CONTRACTS + _c09_relocation()
+def _c13_horizons():
+    """'one value per simulated month, zero from the configured shut-off month': under the schedules that continue to the
+    end, the shut-off month the scenario loader configures IS the horizon, also for horizons other than the shipped 120 -
+    C13's contracts of the shutoff family at 84 months, re-run under this property."""
+    from contracts import C13
+    from contracts.common import relabelled
+    return relabelled([c for c in C13.CONTRACTS if type(c).__name__ == "Accepts" and getattr(c, "nmonths", None)], "C08")
+
+
+CONTRACTS += _c13_horizons()
 EXTRA = [world_grass_unit]
